@@ -114,8 +114,9 @@ ApplyTarget(s, t, ac) ==
 
 \* vm.Reset(): fresh menu (no items, no browse config, no page count, not a sink), page mappings and sink dropped
 ResetRender(s) == [s EXCEPT !.mapped = NoMapped, !.psink = "", !.menu = <<>>, !.browse = NoBrowse, !.pcount = 0, !.msink = FALSE]
-\* pg.Reset() + mn.Reset() after a HALT: items and sink flag dropped, browse config and page count kept
-ResetAfterWait(s) == [s EXCEPT !.mapped = NoMapped, !.psink = "", !.menu = <<>>, !.msink = FALSE]
+\* pg.Reset() + mn.Reset() after a HALT: items, browse entries and sink flag dropped (they belong to the screen that was
+\* shown; a long-lived Menu object must not remember more than a freshly built one knows), page count kept
+ResetAfterWait(s) == [s EXCEPT !.mapped = NoMapped, !.psink = "", !.menu = <<>>, !.browse = NoBrowse, !.msink = FALSE]
 
 \* move to target t and fetch the code of the node that is on top afterwards.  X = [s, err, halt, idxerr, panic]
 X(s, e, h) == [s |-> s, err |-> e, halt |-> h, idxerr |-> FALSE, panic |-> FALSE]
